@@ -28,7 +28,7 @@ MANIFEST = {
     "note": "Corpus plans x all coordinates; monitor updates are scheduled at fixed virtual times.",
     "design_ref": "3 (C05)",
 }
-PLANS_Q = ["custom_mon", "scan", "fly", "nested", "two_runs", "keys_sparse", "collect_sd"]
+PLANS_Q = ["custom_mon", "scan", "fly", "nested", "two_runs", "keys_sparse", "collect_sd", "mon_cfg", "norewind_events"]
 PLANS_T = PLANS_Q + ["keys_sparse2", "grid", "count", "custom", "neverclose"]
 SHARD_TIMEOUT = {"quick": 900, "thorough": 3600}
 worker_init = sweepcheck.worker_init
